@@ -104,12 +104,25 @@ func Main(args []string) {
 	scratch := world.ScratchRoot()
 	defer os.RemoveAll(scratch)
 	if *replay != "" {
+		if b, err := os.ReadFile(*replay); err == nil && strings.Contains(string(b), `"model": "c06threads"`) {
+			os.RemoveAll(scratch)
+			os.Exit(replayThreads(*replay))
+		}
 		code := Replay(scratch, *replay)
 		os.RemoveAll(scratch)
 		os.Exit(code)
 	}
 	rep := evidence.NewReporter("C06")
 	start := time.Now()
+	if *only == "threads" {
+		tc, herr := exploreThreads(rep)
+		fmt.Printf("C06 (threads part only): executions=%v violations=%d\n", tc["executions"], rep.Viol)
+		os.RemoveAll(scratch)
+		if herr && rep.Viol == 0 {
+			os.Exit(2)
+		}
+		rep.Exit()
+	}
 	scs := selected(tier, *only)
 	if len(scs) == 0 {
 		harnessFail("no scenario selected")
@@ -323,6 +336,15 @@ func Main(args []string) {
 		rep.Report(evidence.Report{Oracle: h.f.Oracle, Sig: h.f.Sig, Detail: fmt.Sprintf("%s (reproduced %d/5)", h.f.Detail, h.spec.Repro), Replay: h.spec, Count: h.count})
 	}
 
+	// crash images inside schedules of two threads (second binary, sync overlay)
+	var threadCov map[string]any
+	if *only == "" {
+		tc, herr := exploreThreads(rep)
+		threadCov = tc
+		if herr {
+			harnessErrors++
+		}
+	}
 	var names []string
 	for n := range perScenario {
 		names = append(names, n)
@@ -349,6 +371,7 @@ func Main(args []string) {
 		"verdicts":                                          verdicts,
 		"distinct_finding_sigs":                             len(order),
 		"per_scenario":                                      table,
+		"crash_in_schedule":                                 threadCov,
 		"findings":                                          findingList, // every distinct oracle|sig with its first (smallest) crash state; known ones included
 		"samples":                                           samples,
 	}
